@@ -791,6 +791,10 @@ def run(ctx):
     ctx.rule("R-11.10", "each half of a zero swap runs on the engine of its own ensemble: the per-ensemble engine table handed to the move is built from that ensemble's entry of simulation.ensemble_engines", floor=1)
     from .shared import per_ensemble_engine_table
     ctx.attempt(per_ensemble_engine_table, ctx, "R-11.10", " (the new [0+] path is continued with the [0-] dynamics and the QuanTIS rule evaluated with the wrong potential and beta: swapping twice does not restore the sequences)")
+    ctx.rule("R-11.13", "a zero-swap half that reaches no interface delivers maxlen frames, so the length test of the swap rejects it: every engine runs path.maxlen * subcycles MD steps (shared with C12 R-12.14)", floor=5)
+    from . import c12 as _c12
+    from .shared import RuleProxy as _RP11
+    ctx.attempt(_c12.r1214, _RP11(ctx, "R-11.13", " (retis_swap_zero / quantis_swap_zero judge completeness from the path length alone: a cut-off half is accepted with status ACC, the new [0-] path does not start right of lambda_0 and swapping twice does not restore the paths)"))
     ctx.rule("R-11.12", "the crossing frames of a zero swap are addressed by (file, index) with index 0 being a frame: no truthiness test of a frame index (shared with C12 R-12.12)", floor=5)
     from .shared import frame_index_truthiness
     ctx.attempt(frame_index_truthiness, ctx, "R-11.12", ["infretis/classes/engines/gromacs.py", "infretis/classes/engines/cp2k.py", "infretis/classes/engines/lammps.py", TURTLE, ASE, ENGBASE_REL], " (the frames a zero swap has just created sit at index 0 of their files: the whole multi-frame file is dumped instead and engines that read the last image continue from the wrong configuration)")
@@ -802,6 +806,7 @@ def run(ctx):
 
 
 VARIANTS = [
+    B("c11-turtle-budget-without-subcycles", TURTLE, "steps=path.maxlen * self.subcycles,", "steps=path.maxlen,", "R-11.13", control=True, why="seeded C11_m"),
     B("c11-dump-config-index-by-truthiness", ENGBASE_REL, "        if idx is None:", "        if not idx:", "R-11.12", control=True, why="seeded C11_l"),
     K("c11-keep-process-counter-itertools", ENGBASE_REL, 'str(counter())\n', 'str(next(_PROPAGATIONS))\n', also=[(ENGBASE_REL, "def counter():\n", "import itertools\n_PROPAGATIONS = itertools.count()\n\n\ndef counter():\n")]),
     K("c11-keep-process-counter-global", ENGBASE_REL, "    counter.count = 0 if not hasattr(counter, \"count\") else counter.count + 1\n    return counter.count\n", "    global _N_PROP\n    _N_PROP += 1\n    return _N_PROP\n\n\n_N_PROP = -1\n"),
